@@ -38,6 +38,10 @@ func commands(m *mode) []consoleui.Command {
 		},
 		Action: func(_ *consoleui.UI, args ...interface{}) error {
 			from, to := args[0].(int), args[1].(int)
+			if l := m.view.Lines.Len(); from >= l || to >= l {
+				return fmt.Errorf("line number too big: %d or %d >= %d", from, to, l)
+			}
+
 			m.view.Lines.UnmarkAll()
 
 			err := m.view.Lines.Move(from, to)
@@ -59,6 +63,10 @@ func commands(m *mode) []consoleui.Command {
 		},
 		Action: func(_ *consoleui.UI, args ...interface{}) error {
 			l := args[0].(int)
+			if n := m.view.Lines.Len(); l >= n {
+				return fmt.Errorf("line number too big: %d >= %d", l, n)
+			}
+
 			m.view.Lines.UnmarkAll()
 
 			block, ok := m.view.Lines.Block(l)
@@ -105,7 +113,8 @@ func commands(m *mode) []consoleui.Command {
 
 			var line int = -1
 			offset := m.view.Cursor.Value()
-			for i := offset + 1; i != offset; i = (i + 1) % m.view.Lines.Len() {
+			cnt := m.view.Lines.Len()
+			for i := (offset + 1) % cnt; i != offset; i = (i + 1) % cnt {
 				if regexp.MatchString(m.view.Lines.Index(i).String()) {
 					line = i
 					break
